@@ -2,7 +2,7 @@
 # usage: trymutant.sh <patch.diff> <property> [wall]
 # Applies a seeded change to /repo, runs the property's quick check, reverts. Prints the verdict.
 set -u
-patch="$1"; prop="$2"; wall="${3:-60s}"
+patch="$(readlink -f "$1")"; prop="$2"; wall="${3:-60s}"
 cd /verif
 if ! git -C /repo diff --quiet; then echo "TRYMUTANT: /repo is dirty, refusing"; exit 3; fi
 if ! git -C /repo apply "$patch"; then echo "TRYMUTANT: patch does not apply"; exit 3; fi
@@ -12,4 +12,6 @@ echo "$out" | grep -E "^(VIOLATION|KNOWN-FINDING|vcheck: (C[0-9]+\.|property=|IN
 echo "TRYMUTANT: property=$prop exit=$code"
 # replay files produced by a seeded change do not belong in the tree
 git -C /verif status --porcelain replays | awk '{print $2}' | while read f; do rm -f "/verif/$f"; done
+# the evidence file now describes the changed tree: restore the committed one
+git -C /verif checkout -q -- "evidence/$prop.json" 2>/dev/null
 exit $code
